@@ -601,16 +601,26 @@ def gr_8c(ctx, rep):
         raise AnalysisError('anchor vanished: Function.iter_yield_exprs')
     found = 0
     funcs = [fn] + list(fn.nested.values())
+    import re as _re
+    from ..facts import facts_at
     for g in funcs:
+        # the descent: the recursive call of the scanning function; the node types it is *not* reached for are
+        # the negative facts `<element>.type in (...)` / `<element>.type == ...` that hold at the call
         for n in walk_own(g.node):
-            if isinstance(n, ast.If) and len(n.body) == 1 and isinstance(n.body[0], ast.Continue) \
-                    and isinstance(n.test, ast.Compare) and len(n.test.ops) == 1 and isinstance(n.test.ops[0], (ast.In, ast.Eq)) \
-                    and norm(n.test.left).endswith('.type'):
-                from . import tc
-                vals = tc._const_strs(ctx, g.mod, n.test.comparators[0])
-                found += 1
-                rep.ob('GR-8c', PYTREE, g.qual, 'scope boundary of the yield scan: %s' % norm(n.test), vals == want,
-                       'the yield scan stops at %s, the scope-creating node types are %s: a yield that belongs to the '
-                       'function is missed or a foreign one is counted' % (sorted(vals or []), sorted(want)))
+            if not (isinstance(n, ast.Call) and isinstance(n.func, ast.Name) and n.func.id == g.name):
+                continue
+            excluded = set()
+            texts = []
+            for text, positive in facts_at(n, g.node):
+                m = _re.fullmatch(r'[\w.]+\.type (?:in \((.*)\)|== (.*))', text)
+                if m and not positive and ' | ' not in text:
+                    lits = _re.findall(r"'([^']*)'", m.group(1) or m.group(2))
+                    excluded |= set(lits)
+                    texts.append(text)
+            found += 1
+            rep.ob('GR-8c', PYTREE, g.qual, 'scope boundary of the yield scan: not descending when %s' % ' / '.join(sorted(texts)),
+                   excluded == want,
+                   'the yield scan stops at %s, the scope-creating node types are %s: a yield that belongs to the '
+                   'function is missed or a foreign one is counted' % (sorted(excluded), sorted(want)))
     if not found:
         rep.ob('GR-8c', PYTREE, fn.qual, 'scope boundary of the yield scan', False, 'the scan no longer stops at nested scopes')
